@@ -994,10 +994,28 @@ class ExperimentTopology(Topology):
         #self.graph_model.remove_network_node_with_components_nss_cps_and_links(node_id=node.node_id)
         self.remove_node(name=node.name)
 
+    def _disconnect_interface(self, i: Interface):
+        """
+        Disconnect a node-side interface and its sub-interfaces from the network services they connect to
+        """
+        if i.type == InterfaceType.ServicePort:
+            return
+        for ii in [i] + list(i.interface_list):
+            peers = ii.get_peers(itype=InterfaceType.ServicePort)
+            if peers:
+                if len(peers) == 1:
+                    self.get_parent_element(peers[0]).disconnect_interface(ii)
+                else:
+                    raise TopologyException(f'Interface {ii.name} has more than one peer, this is a model error.')
+
     def _prune_ns(self, ns: NetworkService):
         """
         Prune this network service and its interfaces
         """
+        # use a fresh object: the interface list cached on ns may be stale after earlier prunes
+        ns = self._get_ns_by_id(ns.node_id)
+        for i in ns.interface_list:
+            self._disconnect_interface(i)
         self.graph_model.remove_ns_with_cps_and_links(node_id=ns.node_id)
 
     def _prune_components(self, c: Component, parent: Node):
@@ -1012,6 +1030,7 @@ class ExperimentTopology(Topology):
         """
         Prune this interface
         """
+        self._disconnect_interface(i)
         self.graph_model.remove_cp_and_links(node_id=i.node_id)
 
     def prune(self, reservation_state):
